@@ -561,6 +561,15 @@ func (w *worker) step(ss []*sess, stp Step, st *runStats) {
 		time.Sleep(time.Duration(stp.Ms) * time.Millisecond)
 		return
 	}
+	if stp.Op == "removerealm" {
+		// the embedding application removes a realm while clients use it
+		w.h.rtr.RemoveRealm(wamp.URI(stp.Hex))
+		return
+	}
+	if stp.Op == "addrealm" {
+		_ = w.h.rtr.AddRealm(&router.RealmConfig{URI: wamp.URI(stp.Hex), AnonymousAuth: true, AllowDisclose: true, EnableMetaKill: true})
+		return
+	}
 	if stp.S < 0 || stp.S >= len(ss) {
 		return
 	}
